@@ -50,9 +50,12 @@ func runC06() *RunResult {
 		w.shared = append(w.shared, pf)
 		cases = append(cases, fnv(p.Text+"|"+w.docs[0].Snap))
 	}
-	expectCall := func(p *PathSpec, c CfgSpec, doc int, f [nFuncs]uint64) (string, string) {
+	expectCallP := func(p *PathSpec, c CfgSpec, doc int, f, pn [nFuncs]uint64) (string, string) {
 		pf := soloParse(p, c)
-		return soloEval(pf, deepCopy(w.docs[doc%nd].Val), f, ref)
+		return soloEvalP(pf, deepCopy(w.docs[doc%nd].Val), f, pn, ref)
+	}
+	expectCall := func(p *PathSpec, c CfgSpec, doc int, f [nFuncs]uint64) (string, string) {
+		return expectCallP(p, c, doc, f, [nFuncs]uint64{})
 	}
 	pub := make([]*PathSpec, nt) // the one path each task may publish
 	pubCfg := make([]CfgSpec, nt)
@@ -66,8 +69,8 @@ func runC06() *RunResult {
 			case 0, 1, 2, 3, 4:
 				s := rn(ns)
 				sp := w.shared[s]
-				o := &Op{Kind: opCallShared, Slot: s, Doc: rn(nd), Path: sp.Path, Cfg: sp.Cfg, Faults: drawFaults(sp.Path.UsesFuncs)}
-				o.Expect, o.ExpectLog = expectCall(sp.Path, sp.Cfg, o.Doc, o.Faults)
+				o := &Op{Kind: opCallShared, Slot: s, Doc: rn(nd), Path: sp.Path, Cfg: sp.Cfg, Faults: drawFaults(sp.Path.UsesFuncs), Panics: drawPanics(sp.Path.UsesFuncs)}
+				o.Expect, o.ExpectLog = expectCallP(sp.Path, sp.Cfg, o.Doc, o.Faults, o.Panics)
 				o.HasExpect = true
 				t.ops = append(t.ops, o)
 			case 5, 6:
